@@ -73,7 +73,7 @@ pub const STREAM_LENS: [usize; 6] = [0, 1, 10, 1000, 70000, 200000];
 
 fn lang(header: &str) -> &'static str {
     let mut langs = utils::list_header(header);
-    // the example of kvarn's documentation (src/vary.rs), as repaired by dc5aa45: with partial_cmp(..).unwrap_or(Equal) a list of
+    // the example of kvarn's documentation (src/vary.rs), as repaired by 095abe3: with partial_cmp(..).unwrap_or(Equal) a list of
     // more than 20 members with NaN weights made slice::sort_by panic ("does not correctly implement a total order")
     langs.sort_by(|l1, l2| l2.quality.total_cmp(&l1.quality));
     for l in &langs {
